@@ -123,7 +123,7 @@ func genFault(t *rapid.T, doc []byte) fault {
 func genJSONCase(t *rapid.T) jsonCase {
 	c := jsonCase{}
 	c.Mode = rapid.SampledFrom([]string{"pipe", "pipe", "pipe", "pipe", "pipe", "pipe", "file", "file", "file", "file", "file",
-		"stdinfile", "stdinfile", "file2", "file2", "slurpfile", "argjson", "jsonargs", "import"}).Draw(t, "mode")
+		"stdinfile", "stdinfile", "file2", "file2", "slurpfile", "argjson", "jsonargs", "import", "inputs"}).Draw(t, "mode")
 	c.EOL = rapid.SampledFrom([]string{"lf", "lf", "lf", "crlf", "crlf", "cr", "mixed"}).Draw(t, "eol")
 	switch c.Mode {
 	case "pipe", "file", "stdinfile", "file2":
